@@ -274,3 +274,43 @@ def check(P: Project, R: Report) -> None:
              f"key `{full}` is built from the class name only; {len(dup)} model class names are defined twice ({', '.join(dup[:4])}…), so two different classes would share one cache entry (e.g. an alias map)")
     nested = [c for c in walk_local(fbm.get("_serialize_value", dump)) if isinstance(c, ast.Call) and call_name(c).endswith(".model_dump")]
     R.ob("R3", "fallback passes by_alias down to nested models", bool(nested) and all(kwarg(c, "by_alias") is not None for c in nested), base.rel, "")
+
+    # model configuration that rewrites or restricts values (only Pydantic reads it)
+    from ..models import config_findings
+
+    cf = config_findings(T)
+    for m, k, v, effect in cf:
+        R.ob("R4", f"{m.name}: model_config sets nothing that rewrites or rejects a member", False, f"{m.ci.module.rel}:{m.ci.node.lineno}",
+             f"model_config[{k!r}] = {v!r} {effect}: a spec-valid member is changed or refused on validation (and only under Pydantic)")
+    if not cf:
+        R.ob("R4", "no protocol model's configuration rewrites or restricts member values", True, base.rel, "", sample=f"R4 model_config keys in use: {sorted({k for m in T.models.values() for k in m.config})}")
+
+    # ------------------------------------------------------------------ R5: no constraint beyond the MCP schema's own
+    R.rule("R5", "a spec-valid wire object is accepted: the only value constraints (Field ge/le/gt/lt/min_length/max_length/pattern/multiple_of) on protocol model fields are the ones the MCP schema itself states — the four 0‥1 priorities; any other constraint refuses members the specification allows")
+    SCHEMA_CONSTRAINTS = {
+        ("ModelPreferences", "costPriority"): {"ge": 0.0, "le": 1.0},  # schema: @minimum 0 @maximum 1
+        ("ModelPreferences", "speedPriority"): {"ge": 0.0, "le": 1.0},
+        ("ModelPreferences", "intelligencePriority"): {"ge": 0.0, "le": 1.0},
+        ("Annotations", "priority"): {"ge": 0.0, "le": 1.0},
+    }
+    n_con = 0
+    from ..consteval import try_fold as _fold
+
+    for q, m in sorted(T.models.items()):
+        for fi in m.own_fields.values():
+            if not fi.constraints or not m.ci.module.name.startswith("chuk_mcp.protocol."):
+                continue  # (transport/host parameter classes are configuration, not wire objects)
+            n_con += 1
+            want = SCHEMA_CONSTRAINTS.get((m.name, fi.name))
+            got = {}
+            for k, v in fi.constraints.items():
+                try:
+                    got[k] = float(v)
+                except (TypeError, ValueError):
+                    fv = _fold(P, m.ci.module, ast.parse(v, mode="eval").body) if isinstance(v, str) else v
+                    got[k] = float(fv) if isinstance(fv, (int, float)) and not isinstance(fv, bool) else (fv if fv is not None else v)
+            R.ob("R5", f"{m.name}.{fi.name}: constrained exactly as the MCP schema constrains it", want is not None and got == want, f"{m.ci.module.rel}:{fi.lineno}",
+                 f"Field constraints {got} " + ("differ from the schema's " + str(want) if want is not None else "have no counterpart in the MCP schema: a wire object the specification allows (any string / any number here) is refused on validation, by both backends where the fallback reads the constraint"),
+                 sample=f"R5 {m.name}.{fi.name}: {got}")
+    R.need(n_con >= 4, f"only {n_con} constrained fields found (4 confirmed by hand)")
+
